@@ -356,6 +356,12 @@ fn execute_convert(
 
     if changes.is_empty() || (changes.len() == 1 && changes[0].contains("No conversion needed")) {
         println!("{} No conversion needed", style("ℹ").blue());
+        if !preview {
+            // the caller asked for OUTPUT: write the (unchanged) file so that exit 0 means it exists
+            let output_file = File::create(&output).context("Failed to create output file")?;
+            let mut writer = WdtWriter::new(BufWriter::new(output_file));
+            writer.write(&wdt).context("Failed to write output file")?;
+        }
         return Ok(());
     }
 
